@@ -276,6 +276,14 @@ def random_arch(rng: random.Random, *, dim: int, max_nodes: int, widths=(2, 3, 4
     return norm_arch(a)
 
 
+def drop_affine(rng, arch, p=0.2):
+    """BatchNorm(affine=False) on some of the fused / standalone BatchNorm layers."""
+    for n in arch["nodes"]:
+        if (n["op"] == "bns" or (n["op"] in ("conv", "lin") and n.get("bn"))) and not n.get("reuse") and rng.random() < p:
+            n["bnaff"] = False
+    return arch
+
+
 def rejected_fusion(arch) -> bool:
     """FeatGraph!RejectedFusion \\/ DoubleFusion: a standalone BatchNorm that the conversion fuses into a searchable layer
     (directly or behind another fused BatchNorm) while its input has another user (plinio raises a ValueError), or after
